@@ -317,7 +317,7 @@ def c06_finalize(report, cfg, only=None, positions=None):
                     report.ok("R6.4", ikey, sample={"hasher": name, "buffered": p, "blocks": len(blocks)} if p in (0, 1, 63) else None)
                 else:
                     report.violated("R6.4", ikey, "%s finalisation with %d buffered bytes: digest byte %d differs from (0x80, zeros, big-endian bit length; %d block(s); last %d bytes of the state)"
-                                    % (name, p, i // 8, len(blocks), nout), graphs=(got, exp))
+                                    % (name, p, i // 8, len(blocks), nout), graphs=(got, exp), boundary=(it, len(blocks)))
             engine_guard(go, report, "R6.4", ikey)
     return total
 
@@ -365,7 +365,7 @@ def c06_update(report, cfg):
                 buf2, _, _ = by_name(it, v2, t, "buffer")
                 pos2, _, _ = by_name(it, buf2, bt, "pos")
                 if it.to_bits(st2, stt) != x:
-                    report.violated("R6.7", ikey, "update does not feed exactly the complete blocks of the stream to F8", graphs=(it.to_bits(st2, stt), x))
+                    report.violated("R6.7", ikey, "update does not feed exactly the complete blocks of the stream to F8", graphs=(it.to_bits(st2, stt), x), boundary=(it, (p + ln) // 64))
                 elif dl2 != bv.add(dl, bv.const(ln, 64)):
                     report.violated("R6.7", ikey, "update does not add the number of input bytes (%d) to the length counter" % ln, graphs=(dl2, bv.add(dl, bv.const(ln, 64))))
                 elif bv.const_value(pos2) != (p + ln) % 64:
